@@ -42,8 +42,10 @@ type inflight struct {
 }
 
 type inode struct {
-	cur      []byte
-	dur      []byte
+	cur []byte
+	dur []byte
+	// hole: implicit zero bytes after cur (a sparse tail: huge files are never materialised)
+	hole     int64
 	mode     fs.FileMode
 	inflight map[*inflight]struct{}
 	nlinkOK  bool
@@ -82,6 +84,9 @@ type FS struct {
 	OnWrite func(ev *WriteEvent) Fault
 	// ReadChunkMax > 0: File.Read returns at most a random 1..ReadChunkMax bytes (short reads).
 	ReadChunkMax int
+	// Sparse: files larger than Quota are kept as a size only (reads give zeros, writes into
+	// the hole fail with ENOSPC).
+	Sparse bool
 	// Quota: the largest file the disk takes (0 = no limit); larger truncates fail with EFBIG.
 	Quota   int64
 	OnRead  func(path string, off int64, n int) error
@@ -299,7 +304,7 @@ func (f *FS) Stat(name string) (fs.FileInfo, error) {
 	defer f.mu.Unlock()
 	f.audit("stat", p, 0, 0, 0, nil)
 	if ino, ok := f.files[p]; ok {
-		return &fileInfo{name: path.Base(p), size: int64(len(ino.cur)), mode: ino.mode}, nil
+		return &fileInfo{name: path.Base(p), size: int64(len(ino.cur)) + ino.hole, mode: ino.mode}, nil
 	}
 	if f.dirs[p] {
 		return &fileInfo{name: path.Base(p), dir: true, mode: fs.ModeDir | 0o755}, nil
@@ -333,7 +338,7 @@ func (fl *File) Stat() (fs.FileInfo, error) {
 	if fl.ino == nil {
 		return &fileInfo{name: path.Base(fl.path), dir: true, mode: fs.ModeDir | 0o755}, nil
 	}
-	return &fileInfo{name: path.Base(fl.path), size: int64(len(fl.ino.cur)), mode: fl.ino.mode}, nil
+	return &fileInfo{name: path.Base(fl.path), size: int64(len(fl.ino.cur)) + fl.ino.hole, mode: fl.ino.mode}, nil
 }
 
 func (fl *File) Close() error {
@@ -359,8 +364,18 @@ func (fl *File) Truncate(size int64) error {
 		return pathErr("truncate", fl.path, syscall.EINVAL)
 	}
 	if fl.fs.Quota > 0 && size > fl.fs.Quota {
-		return pathErr("truncate", fl.path, syscall.EFBIG)
+		if !fl.fs.Sparse {
+			return pathErr("truncate", fl.path, syscall.EFBIG)
+		}
+		// sparse file system: the size is recorded, nothing is allocated
+		if int64(len(fl.ino.cur)) > fl.fs.Quota {
+			fl.ino.cur = fl.ino.cur[:fl.fs.Quota]
+			fl.ino.dur = resize(fl.ino.dur, fl.fs.Quota)
+		}
+		fl.ino.hole = size - int64(len(fl.ino.cur))
+		return nil
 	}
+	fl.ino.hole = 0
 	fl.ino.cur = resize(fl.ino.cur, size)
 	fl.ino.dur = resize(fl.ino.dur, size) // metadata treated as durable (stated assumption)
 	return nil
@@ -405,6 +420,15 @@ func (fl *File) ReadAt(p []byte, off int64) (int, error) {
 		return 0, pathErr("read", fl.path, errors.New("negative offset"))
 	}
 	if off >= int64(len(fl.ino.cur)) {
+		if off < int64(len(fl.ino.cur))+fl.ino.hole {
+			// inside the sparse tail: zeros
+			n := int(min(int64(len(p)), int64(len(fl.ino.cur))+fl.ino.hole-off))
+			clear(p[:n])
+			if n < len(p) {
+				return n, io.EOF
+			}
+			return n, nil
+		}
 		return 0, io.EOF
 	}
 	n := copy(p, fl.ino.cur[off:])
@@ -460,6 +484,10 @@ func (fl *File) WriteAt(p []byte, off int64) (int, error) {
 	if fl.flag&(os.O_WRONLY|os.O_RDWR) == 0 {
 		f.mu.Unlock()
 		return 0, pathErr("write", fl.path, syscall.EBADF)
+	}
+	if fl.ino.hole > 0 && f.Quota > 0 && off+int64(len(p)) > f.Quota {
+		f.mu.Unlock()
+		return 0, pathErr("write", fl.path, syscall.ENOSPC) // the sparse tail has no blocks to give
 	}
 	f.nWrites++
 	ev := &WriteEvent{FS: f, Path: fl.path, Off: off, Data: p, Sync: fl.sync, Phase: "begin", N: f.nWrites}
